@@ -48,15 +48,19 @@ class BootstrapProposalDistribution(ProposalDistribution):
             else:
                 old_num_roots = len(self.parent_particle.tree_roots)
 
-                log_p = np.log((1 - self.outlier_proposal_prob) / 2)
-
                 if old_num_roots > 0:
+                    log_p = np.log((1 - self.outlier_proposal_prob) / 2)
+
                     if isinstance(tree, Tree):
                         num_children = tree.get_number_of_children(node)
                     else:
                         num_children = tree.num_children_on_node_that_matters
 
                     log_p -= np.log(old_num_roots + 1) + log_binomial_coefficient(old_num_roots, num_children)
+
+                # Only outliers in the parent tree: sample() proposes a new node with all the non-outlier mass
+                else:
+                    log_p = np.log(1 - self.outlier_proposal_prob)
 
         return log_p
 
